@@ -307,15 +307,58 @@ func pathOf1(v ssa.Value, depth int) string {
 		return pathOf(v.X)
 	case *ssa.Slice:
 		return pathOf(v.X)
+	case *ssa.TypeAssert:
+		return pathOf(v.X)
+	case *ssa.MakeInterface:
+		return pathOf(v.X)
+	case *ssa.Extract:
+		if b := pathOf(v.Tuple); b != "" {
+			return b
+		}
+	case *ssa.Call:
+		// the object a call returns: fresh, pooled or handed out by another instance — not a named location
+		return "C:" + calleeFullName(v)
+	case *ssa.MakeSlice, *ssa.MakeMap:
+		return "A:make"
 	case *ssa.Phi:
-		// all edges must agree
+		// the non-phi values feeding the phi (through other phis), nil constants aside, must agree;
+		// different local/fresh objects merge into a local one
+		seen := map[ssa.Value]bool{}
+		var leaves []ssa.Value
+		var walk func(x ssa.Value)
+		walk = func(x ssa.Value) {
+			if seen[x] {
+				return
+			}
+			seen[x] = true
+			if ph, ok := x.(*ssa.Phi); ok {
+				for _, e := range ph.Edges {
+					walk(e)
+				}
+				return
+			}
+			if !isNilConst(x) {
+				leaves = append(leaves, x)
+			}
+		}
+		walk(v)
 		p := ""
-		for i, e := range v.Edges {
+		local := true
+		for _, e := range leaves {
 			q := pathOf(e)
-			if i == 0 {
-				p = q
-			} else if q != p {
+			if q == "" {
 				return ""
+			}
+			if !strings.HasPrefix(q, "A:") && !strings.HasPrefix(q, "C:") {
+				local = false
+			}
+			if p == "" {
+				p = q
+			} else if p != q {
+				if !local {
+					return ""
+				}
+				p = "A:phi"
 			}
 		}
 		return p
